@@ -180,11 +180,31 @@ impl Builder {
                 },
                 "template" => {
                     self.count("template start tag");
-                    self.insert_html(t);
                     self.afe.push(Afe::Marker);
                     self.frameset_ok = false;
                     self.mode = Mode::InTemplate;
                     self.tmpl_modes.push(Mode::InTemplate);
+                    // declarative shadow roots: shadowrootmode is an enumerated attribute (keywords
+                    // open / closed, ASCII case-insensitive); the adjusted current node must not be
+                    // the topmost element of the stack (the fragment case with only the root on
+                    // the stack is left to the plain path, as html5ever does)
+                    let mode_set = t
+                        .attrs
+                        .iter()
+                        .any(|(k, v)| k == "shadowrootmode" && (v.eq_ignore_ascii_case("open") || v.eq_ignore_ascii_case("closed")));
+                    if mode_set && self.dsd_allow && self.open.len() > 1 && self.dsd_succeed {
+                        self.count("declarative shadow root attached");
+                        let host = *self.open.last().unwrap();
+                        // the template element is created and pushed, but never inserted; its
+                        // contents are the host's shadow root
+                        let e = self.dom.new_element(HTML, &t.name, Self::html_attrs(t), t.dup);
+                        self.open.push(e);
+                        if let Some(c) = self.dom.nodes[e].tmpl {
+                            self.dom.nodes[host].shadow.push(c);
+                        }
+                    } else {
+                        self.insert_html(t);
+                    }
                 },
                 "head" => {},
                 _ => self.in_head_anything_else(tok),
